@@ -19,11 +19,13 @@ THEOREMS = ['C12_repr_cannot_escape', 'C12_repr_cannot_escape_before', 'C12_repr
 RULE = ('sources with 1-4 hostile quoted atoms (quotes of both kinds, line breaks, CR, NUL, control, #, triple quotes, Python statements, '
         'non-ASCII printable and non-printable code points, lone surrogates) placed in fact arguments, head arguments, goal names, goal '
         'arguments, list elements, functor names, nested compound terms and as clause-head names (must be rejected); variables named like '
-        'Python constants / engine API / generated locals; random programs with exotic atoms. Compared: verdict and text with the Coq model '
+        'Python constants / engine API / generated locals; random programs with exotic atoms; clause-head names and atoms that are ASCII identifiers '
+        'but for one or two characters of nine computed classes (case mapping / re.IGNORECASE / normal form is or starts with an ASCII identifier '
+        'character, identifier-legal and renamed by NFKC, decimal digits, identifier start / continue), the small classes enumerated completely. Compared: verdict and text with the Coq model '
         'compile_text. Oracle on the real output: token classes (fixed vocabulary, V_ identifiers, argN/lN/cutIfN, canonical decimals, '
         'one-line string literals, def names = head keys), ast node-type whitelist, loaded names = API whitelist or locals, calls only to '
         'the 7 API functions, string constants = the atoms of the source in order, int constants = the numerals, loading adds only head '
-        'keys and rebinds no API name, __builtins__ of the exec globals is empty, hostile queries have no answers / no exception / no '
+        'keys, defines every head key and rebinds no API name, __builtins__ of the exec globals is empty, hostile queries have no answers / no exception / no '
         'side effect. Non-trivial: an accepted source containing an atom whose repr is not quote+text+quote, or a rejected head name.')
 TRUSTED_BASE = []
 CASE_TIMEOUT = 30
@@ -60,6 +62,9 @@ def gen(rng, tier):
             alpha = ["'", '"', '\n', '\r', '\t', ' ', '#', '(', ')', '[', ']', ',', ':', ';', '=', 'a', 'Z', '_', '0', '.', '%', '\x00', '\x7f', '\x85', ' ',
                      '\xe9', '́', '\U0001f600', '\ud800', '￾', '{', '}', '`', '$', '!', '|', '-', '+', '<', '>', '@', '~', '\x1b', '\xa0', '\xad']
             return ''.join(rng.choice(alpha) for _ in range(rng.randrange(0, 12)))
+        if rng.random() < 0.2:
+            # an ASCII identifier with characters that case mapping, normalisation or Python's identifier rules relate to ASCII
+            return E.rnd_mixed_name(rng)
         return rng.choice(E.HOSTILE)
     for _ in range(170 if quick else 3000):
         pos = rng.choice(POSITIONS)
@@ -74,6 +79,10 @@ def gen(rng, tier):
         if q is None:
             continue
         cases.append({'kind': 'text', 'source': rng.choice(HEAD_POSITIONS) % q, 'atoms': [a], 'where': 'head'})
+    for _ in range(40 if quick else 600):
+        # clause-head names that are ASCII identifiers but for one or two characters of the computed look-alike classes
+        a = E.rnd_mixed_name(rng)
+        cases.append({'kind': 'text', 'source': rng.choice(HEAD_POSITIONS) % E.quote_atom(a), 'atoms': [a], 'where': 'head'})
     for _ in range(25 if quick else 400):
         vs = [rng.choice(VARNAMES) for _ in range(3)]
         src = rng.choice(["p(%s, [], %s) :- q(%s, []).", "p(%s) :- %s = [], q(%s).", "p([%s|%s], %s).", "p(%s, %s) :- ( q(%s) -> r(X) ; s )."])
@@ -93,6 +102,13 @@ def builtin_corpus():
             continue
         src("p(%s, f(%s), [%s]) :- %s(%s), X = %s(%s)." % ((q,) * 7))
         src("%s(a)." % q, 'head')
+    for i, ch in enumerate(E.identifier_lookalikes_small()):
+        # every character of the small look-alike classes (computed: case mappings / re.IGNORECASE matches that are ASCII),
+        # first and inside a clause-head name, and as a goal name
+        for a in (ch + 'bc', 'Ab' + ch + '_1'):
+            src(HEAD_POSITIONS[i % len(HEAD_POSITIONS)] % E.quote_atom(a), 'head')
+            L[-1]['atoms'] = [a]
+        src("p :- %s(x), %s." % (E.quote_atom(ch + 'bc'), E.quote_atom('q' + ch)))
     for d in ["p :- fail, 1(a).", "p :- (a -> fail), 1(a).", "p :- fail -> 1(a) ; b.", "p :- (fail ; a), 1(a).", "p(1(a)) :- fail.", "p :- fail, X = 1(a).", "p :- a, fail, 007(_).", "p :- \\+ fail, 1(a).", "p :- fail, q(a/1)."]:
         src(d)      # numeral-named compound terms: refused only where the compiler reaches them (Comp/NumeralName.v)
     src("p(ATOM_NIL, []).", 'var'); src("p(True, False, None) :- q(True).", 'var'); src("p(Query) :- Query = query, call(Query, x).", 'var')
@@ -308,6 +324,8 @@ def impl(case):
     added = set(after) - set(before)
     if not added <= want:
         probs.append('loading added names %r that are not head keys' % sorted(added - want)[:5])
+    if not want <= set(after):
+        probs.append('loading does not define the head keys %r' % sorted(want - set(after))[:5])
     for k in before:
         if after.get(k) is not before[k] and k not in want:
             probs.append('loading rebound %r' % k)
